@@ -36,6 +36,13 @@ def threshold(t, rows):
         return None
     op, l, r = t[1], t[2], t[3]
     ln = ("call", "len", (rows,), ())
+
+    def norm(x):
+        # len(list(rows)) / len(sorted(rows)) count the same rows
+        if x[0] == "call" and x[1] == "len" and x[2] and strip_wrappers(x[2][0]) == rows:
+            return ln
+        return x
+    l, r = norm(l), norm(r)
     if l == ln and is_const(r) and isinstance(r[1], int):
         if op == ">":
             return r[1] + 1
@@ -51,6 +58,8 @@ def threshold(t, rows):
 
 def run(ctx):
     model = ctx.model
+    from .. import roles as _roles
+    R = _roles.get(model)
     interp = model.interp
     ctx.rule("R05.count", "the crowd predicate is len(rows) > 2 over a select of the side "
              "table keyed by the parent key only, taken after this side's row is inserted")
@@ -135,7 +144,7 @@ def run(ctx):
     nret = 0
     for p in model.paths("ws:onMessage"):
         for e, _ in all_events(p, ("ret",)):
-            if e["callee"] == "AppNamespace.open_mailbox":
+            if e["callee"] == R.open_op:
                 nret += 1
                 cc = crowd_cond(e["pc"], ("mailbox_sides",), interp)
                 # decided by a row-count fact (fresh mailbox) is fine too
@@ -158,7 +167,7 @@ def run(ctx):
     for p in model.paths("ws:onMessage"):
         got = False
         for e, _ in all_events(p):
-            if e["k"] == "ret" and e["callee"] == "AppNamespace.open_mailbox":
+            if e["k"] == "ret" and e["callee"] == R.open_op:
                 got = True
             if e["k"] == "send" and frame_type(e) == "claimed":
                 ncl += 1
@@ -205,7 +214,7 @@ def run(ctx):
         for p in handler_paths(model, h):
             got = False
             for e, _ in all_events(p):
-                if e["k"] == "ret" and e["callee"] == "AppNamespace.open_mailbox":
+                if e["k"] == "ret" and e["callee"] == R.open_op:
                     got = True
                 if e["k"] == "reg_set" and e["reg"][0] == "reg" and e["reg"][2] == "_listeners":
                     ctx.ob("R05.noleak", "%s: subscribes only after open_mailbox returned" % h,
@@ -220,7 +229,7 @@ def run(ctx):
             ctx.ob("R05.rows", f.construct, f.ok, f.site, f.detail +
                    ("" if f.ok else ": the deleted sides are forgotten, so a further side "
                     "is admitted to the same incarnation"))
-    ctx.require("R05.rows", nr, 4, "deletes on side tables")
+    ctx.require("R05.rows", nr, 2, "deletes on side tables")
     for en in model.runtime_entries():
         for p in model.paths(en):
             for e, _ in all_events(p, ("sql",)):
